@@ -45,7 +45,7 @@ def _reg():
 
 
 def _entries(fn):
-    return [e for e in _reg().values() if e.fn == fn]
+    return [e for e in _reg().values() if isinstance(e, Entry) and e.fn == fn]
 
 
 def _lookup(fn, x):
@@ -65,17 +65,38 @@ def _ax(sb):
         raise EncodingGap('axiom evaluated to False')
 
 
+def _num(t):
+    if z3.is_rational_value(t):
+        return Fr(t.numerator_as_long(), t.denominator_as_long())
+    if z3.is_int_value(t):
+        return Fr(t.as_long())
+    return None
+
+
 def _const_diff(a: R, b: R):
-    """a - b if it is a concrete number, else None."""
+    """a - b if it is (syntactically, after normalisation) a concrete number, else None."""
     d = a - b
     if d.concrete:
         return d.n
-    if _isz(d.d):
-        return None
     s = _canon(tz(d.n))
-    if z3.is_rational_value(s):
-        return Fr(s.numerator_as_long(), s.denominator_as_long())
-    return None
+    v = _num(s)
+    if _isz(d.d):
+        return ZERO if (v is not None and v == 0) else None
+    return v
+
+
+def _split_coeff(t):
+    """(coefficient, rest-id, rest) of a normalised monomial-like term c*m."""
+    v = _num(t)
+    if v is not None:
+        return v, None
+    if z3.is_mul(t):
+        ch = t.children()
+        c0 = _num(ch[0])
+        if c0 is not None:
+            rest = ch[1] if len(ch) == 2 else z3.simplify(z3.Product(*ch[1:]), som=True, flat=True)
+            return c0, rest
+    return ONE, t
 
 
 def _ratio_const(a: R, b: R):
@@ -319,18 +340,17 @@ def _const_ratio_value(q: R):
     if q.concrete:
         return q.n
     n = _canon(tz(q.n))
-    d = _canon(tz(q.d)) if _isz(q.d) else None
-    if d is None:
-        if z3.is_rational_value(n):
-            return Fr(n.numerator_as_long(), n.denominator_as_long())
-        return None
-    # n / d constant  <=>  n - k d == 0 for a number k: test with the leading coefficients is
-    # expensive in general; use the cheap structural test n == k*d
-    r = z3.simplify(n / d, som=True)
-    if z3.is_rational_value(r):
-        return Fr(r.numerator_as_long(), r.denominator_as_long())
+    if not _isz(q.d):
+        return _num(n)
+    d = _canon(q.d)
     if n.eq(d):
         return ONE
+    cn, rn = _split_coeff(n)
+    cd, rd = _split_coeff(d)
+    if rn is not None and rd is not None and rn.eq(rd) and cd != 0:
+        return cn / cd
+    if rn is None and rd is None and cd != 0:
+        return cn / cd
     return None
 
 
@@ -447,6 +467,8 @@ def cossin(x):
                 else:
                     _ax(sb_and([co == -os_, so == -oc]))
                 continue
+            _ax(sb_or([x != o.arg, sb_and([co == oc, so == os_])]))          # congruence
+            _ax(sb_or([x != -o.arg, sb_and([co == oc, so == -os_])]))        # even / odd
             d = _const_diff(x, o.arg + o.arg)
             if d is not None and d == 0:
                 _ax(sb_and([co == oc * oc - os_ * os_, so == oc * os_ * 2]))
@@ -465,7 +487,12 @@ def cossin(x):
                 d = _const_diff(a.arg, x + b.arg)
                 if d is not None and d == 0:
                     _ax(sb_and([ac == co * bc - so * bs, as_ == so * bc + co * bs]))
-    _ax((x == 0) <= sb_and([co == 1, so == 0])) if False else None
+    if ctx().mode != 'concrete':
+        pi = PI()
+        tab = {0: (1, 0), 1: (0, 1), 2: (-1, 0), 3: (0, -1)}
+        for q in range(-4, 5):
+            c_, s_ = tab[q % 4]
+            _ax(sb_or([x != pi * Fr(q, 2), sb_and([co == c_, so == s_])]))
     _reg()[k] = Entry('cs', x, (co, so), k)
     return co, so
 
